@@ -101,7 +101,20 @@ def _float_bits(w: int) -> st.SearchStrategy:
                 0.1, 1 / 3, 1e-5, 123456.789]
     e_bits, m_bits = codec.FLOAT_FORMATS[w]
     exact = st.integers(0, (1 << w) - 1).map(lambda p: codec.ieee_decode(p, w)).filter(lambda d: not isinstance(d, str)).map(float)
+
+    def tie(p: int) -> float:
+        """Exactly halfway between two adjacent values of the narrow format (round-half-to-even must decide)."""
+        a, b = codec.ieee_decode(p, w), codec.ieee_decode(p + 1, w)
+        if isinstance(a, str) or isinstance(b, str):
+            return 0.0
+        return float((a + b) / 2)
+
+    ties = st.integers(0, (1 << (w - 1)) - 2).map(tie) if w < 64 else st.just(0.0)
+    threshold32 = float(2**128 - 2**103)  # the smallest magnitude that rounds to infinity in binary32
+    edge = st.sampled_from([65519.999, 65520.0, 65520.001, -65520.0, threshold32, threshold32 * (1 - 2**-40), -threshold32, 2.0**-25, 2.0**-24 * 1.5, 2.0**-150, 2.0**-149 * 1.5])
     return st.one_of(
+        ties,
+        edge,
         st.sampled_from(specials),
         exact,
         st.floats(allow_nan=False, allow_infinity=False),
